@@ -281,7 +281,9 @@ ssize_t _whawty_write_data(int sock, const void* data, size_t len, int timeout)
       return ret;
     }
 
-    ssize_t nwritten = write(sock, (void*)(data + offset), len - offset);
+        // MSG_NOSIGNAL: if whawty has already closed the connection we want EPIPE, not a
+        // SIGPIPE that kills the application which has loaded this module
+    ssize_t nwritten = send(sock, (void*)(data + offset), len - offset, MSG_NOSIGNAL);
     if(nwritten < 0 || (nwritten == 0 && errno != EINTR)) {
       return offset;
     }
